@@ -21,12 +21,13 @@ from pv.c10_findings import MATCHERS
 GEN_CFGS = {
     "quick": ["DirectiveTree_quick2.cfg", "DirectiveTree_quick3.cfg"],
     "thorough": ["DirectiveTree_quick2.cfg", "DirectiveTree_quick3.cfg",
-                 "DirectiveTree_thorough3.cfg", "DirectiveTree_thorough4.cfg"],
+                 "DirectiveTree_thorough2.cfg", "DirectiveTree_thorough3.cfg",
+                 "DirectiveTree_thorough4.cfg"],
 }
 # skeletons named in each generator cfg (cross-checked against TLC's count of
 # initial states)
-CFG_SKELS = {"DirectiveTree_quick2.cfg": "ABCDEF", "DirectiveTree_quick3.cfg": "G",
-             "DirectiveTree_thorough3.cfg": "ABCE", "DirectiveTree_thorough4.cfg": "G"}
+CFG_SKELS = {"DirectiveTree_quick2.cfg": "ABCDE", "DirectiveTree_quick3.cfg": "G",
+             "DirectiveTree_thorough3.cfg": "ABCEF", "DirectiveTree_thorough2.cfg": "F", "DirectiveTree_thorough4.cfg": "G"}
 ST_CODE = {"accepted": 1, "refused": 0, "error": 0}
 
 
@@ -94,7 +95,8 @@ def validate(hists, recs, tmp, workers, corrupt=None):
 
     cases, judged = [], []
     for idx, ((skel, ops), r) in enumerate(zip(hists, recs)):
-        if r["gen"] not in ("written", "refused", "error") or r["ptree"] is None:
+        if r["gen"] not in ("written", "refused", "error", "unchanged") \
+                or r["ptree"] is None:
             continue
         ti = tidx(r["tree"]) if r["gen"] == "written" else 0
         cases.append([idx, skel, ti, tidx(r["ptree"]),
@@ -136,58 +138,88 @@ def reproduce(case):
 
 
 # ------------------------------------------------ anchor self-test (thorough)
-def gfortran_anchor(samples, tmp):
-    '''Compile written programs with gfortran -fopenmp -fopenacc -fsyntax-only
-    and compare acceptance with TLC's Valid.  samples: [(text, valid: bool,
-    rules)].  Purely a calibration of the specification (machinery divergence);
-    the exit code is governed by TLC's Valid decisions.'''
-    if not shutil.which("gfortran") or not samples:
-        return {"compiled": 0}
+_RE = __import__("re")
+# front end:  file:LINE:COL:\n\n <code>\n <caret>\nError: msg
+_GF_ERR_FE = _RE.compile(r"^\S*anchor\w*\.f90:(\d+):\d+:\s*\n(?:(?!^\S*anchor\w*\.f90:).*\n)*?"
+                         r"(?:Error|Fatal Error): ([^\n]*)", _RE.M)
+# middle end: file:LINE:COL: error: msg
+_GF_ERR_ME = _RE.compile(r"^\S*anchor\w*\.f90:(\d+):\d+: (?:error|sorry, unimplemented): ([^\n]*)",
+                         _RE.M)
+
+
+def _gf_batch(arg):
+    '''Compile one file holding several routines -> {routine idx: message}.'''
+    tmp, tag, flags, items = arg
     lines, spans = [], []
-    for i, (text, _, _) in enumerate(samples):
+    for i, text in items:
         body = text.replace("subroutine s(", f"subroutine s{i}(") \
                    .replace("end subroutine s\n", f"end subroutine s{i}\n")
         lo = len(lines) + 1
         lines += body.splitlines()
-        spans.append((lo, len(lines)))
-    # one file per 200 routines: gfortran stops after a number of errors
-    agree = {"both_accept": 0, "both_reject": 0, "valid_but_gfortran_rejects": [],
-             "gfortran_accepts_but_not_valid": collections.Counter()}
-    rejected = set()
-    for start in range(0, len(samples), 1):
-        pass
-    batch = 40
-    for b in range(0, len(samples), batch):
-        lo = spans[b][0]
-        hi = spans[min(b + batch, len(samples)) - 1][1]
-        fn = os.path.join(tmp, f"anchor{b}.f90")
-        with open(fn, "w") as f:
-            f.write("\n".join(lines[lo - 1:hi]) + "\n")
-        p = subprocess.run(["gfortran", "-fopenmp", "-fopenacc", "-fsyntax-only",
-                            "-fmax-errors=0", fn], capture_output=True, text=True)
-        import re
-        for m in re.finditer(r"anchor\d+\.f90:(\d+):\d+:\s*\n(?:.*\n)*?\s*(Error|Fatal Error)",
-                             p.stderr):
-            ln = int(m.group(1)) + lo - 1
-            for i in range(b, min(b + batch, len(samples))):
-                if spans[i][0] <= ln <= spans[i][1]:
-                    rejected.add(i)
-    for i, (text, valid, rules) in enumerate(samples):
-        rej = i in rejected
-        if valid and not rej:
-            agree["both_accept"] += 1
-        elif not valid and rej:
-            agree["both_reject"] += 1
-        elif valid and rej:
-            if len(agree["valid_but_gfortran_rejects"]) < 5:
-                agree["valid_but_gfortran_rejects"].append(text)
+        spans.append((lo, len(lines), i))
+    fn = os.path.join(tmp, f"anchor{tag}.f90")
+    with open(fn, "w") as f:
+        f.write("\n".join(lines) + "\n")
+    p = subprocess.run(["gfortran", "-fopenmp", "-fopenacc", "-fmax-errors=0"]
+                       + flags + [fn], capture_output=True, text=True, cwd=tmp)
+    bad = {}
+    for rex in (_GF_ERR_FE, _GF_ERR_ME):
+        for m in rex.finditer(p.stderr):
+            ln = int(m.group(1))
+            for lo, hi, i in spans:
+                if lo <= ln <= hi:
+                    bad.setdefault(i, m.group(2)[:160])
+    if p.returncode and not bad:
+        raise core.MachineryError("gfortran failed without a diagnostic that "
+                                  "can be attributed:\n" + p.stderr[-800:])
+    return bad
+
+
+def gfortran_judge(texts, tmp, procs):
+    '''gfortran's opinion of each program: None = accepted, else the first
+    error.  Pass 1 parses/resolves (-fsyntax-only); the nesting diagnostics of
+    the OpenMP/OpenACC lowering only run in a real compilation, so pass 2
+    compiles (-c) the programs that survived pass 1.'''
+    verdict = [None] * len(texts)
+    batch = 25
+    todo = list(range(len(texts)))
+    for tag, flags in (("s", ["-fsyntax-only"]), ("c", ["-c", "-o", "/dev/null"])):
+        jobs = [(tmp, f"{tag}{b}", flags, [(i, texts[i]) for i in todo[b:b + batch]])
+                for b in range(0, len(todo), batch)]
+        for bad in core.pool_map(_gf_batch, jobs, procs=procs, chunksize=1):
+            for i, msg in bad.items():
+                verdict[i] = msg
+        todo = [i for i in todo if verdict[i] is None]
+    return verdict
+
+
+def gfortran_anchor(samples, tmp, procs):
+    '''Compare gfortran's acceptance with TLC's Valid on written programs.
+    samples: [(text, valid, rules)].  Purely a calibration of the
+    specification: disagreement is reported as machinery divergence, the exit
+    code is governed by TLC's Valid decisions.'''
+    if not shutil.which("gfortran") or not samples:
+        return {"compiled": 0}
+    verdict = gfortran_judge([s[0] for s in samples], tmp, procs)
+    res = {"compiled": len(samples), "both_accept": 0, "both_reject": 0,
+           "valid_but_gfortran_rejects": 0, "valid_but_gfortran_rejects_samples": [],
+           "not_valid_but_gfortran_accepts": collections.Counter(),
+           "gfortran_messages_by_rule": {}}
+    for (text, valid, rules), msg in zip(samples, verdict):
+        if valid and msg is None:
+            res["both_accept"] += 1
+        elif valid:
+            res["valid_but_gfortran_rejects"] += 1
+            if len(res["valid_but_gfortran_rejects_samples"]) < 5:
+                res["valid_but_gfortran_rejects_samples"].append(
+                    {"gfortran": msg, "written": text})
+        elif msg is None:
+            res["not_valid_but_gfortran_accepts"]["+".join(rules)] += 1
         else:
-            for r in rules:
-                agree["gfortran_accepts_but_not_valid"][r] += 1
-    agree["gfortran_accepts_but_not_valid"] = dict(
-        agree["gfortran_accepts_but_not_valid"])
-    agree["compiled"] = len(samples)
-    return agree
+            res["both_reject"] += 1
+            res["gfortran_messages_by_rule"].setdefault("+".join(rules), msg)
+    res["not_valid_but_gfortran_accepts"] = dict(res["not_valid_but_gfortran_accepts"])
+    return res
 
 
 # ------------------------------------------------------------------------ run
@@ -301,7 +333,7 @@ def run(tier, corrupt=None):
                 sample.append((reproduce(case), idx not in verdicts, rl))
                 if len(sample) >= 4000:
                     break
-            cov["gfortran_anchor"] = gfortran_anchor(sample, tmp)
+            cov["gfortran_anchor"] = gfortran_anchor(sample, tmp, procs)
     finally:
         shutil.rmtree(tmp, ignore_errors=True)
     cov["evaluations"] = len(judged)
